@@ -440,7 +440,8 @@ func (res *Response) checkChunked() {
 	}
 
 	// 3. See if we need to chunk for trailers
-	if !res.chunked && len(res.header[trailerHeader]) > 0 {
+	if !res.chunked && len(res.header[trailerHeader]) > 0 &&
+		res.statusCode != http.StatusNoContent && res.statusCode != http.StatusNotModified {
 		res.chunked = true
 	}
 
